@@ -111,6 +111,11 @@ static std::string b64_decode(const std::string& txt, Thrown& t) {
         for (auto b : v) out.push_back((char)b);
     });
     delete heap;
+    // and once from a heap block that begins with the text (short texts would otherwise sit inside the string object, where an access in
+    // front of the first character is invisible)
+    std::string* front = new std::string(); front->reserve(std::max<size_t>(32, txt.size())); front->assign(txt);
+    (void)guarded([&] { Base64Decoder d(*front); (void)d.Decode(); });
+    delete front;
     return out;
 }
 static void c20_roundtrip(const std::string& bytes, const std::string& cls) {
@@ -154,6 +159,32 @@ static void c20_credentials(const std::string& user, const std::string& pass, co
     maybe_sample("credentials", hex(user) + ":" + hex(pass), a.value());
     end_case();
 }
+// one header object used for several credentials in a row, read in between, re-parsed and copied: every read must give what the
+// header holds NOW (what value()/write() show)
+static void c20_credential_sequence(Rng& r) {
+    static const char* UCH = "abcXYZ019 !#$%&/()=?*+~.,;-_<>|@";
+    auto rnd = [&](int maxlen, bool colon) { std::string t; int l = r.range(0, maxlen); for (int k = 0; k < l; k++) t += (colon && r.chance(1, 8)) ? ':' : UCH[r.below(strlen(UCH))]; return t; };
+    std::string script;
+    Http::Header::Authorization a; std::string curU, curP; bool have = false;
+    int steps = r.range(3, 8);
+    std::string all;
+    for (int k = 0; k < steps; k++) { int op = r.range(0, 3); script += "srpc"[op]; }
+    BEGIN("basic-sequence", script, script);
+    for (char op : script) {
+        if (op == 's') { curU = rnd(10, false); curP = rnd(12, true); Thrown t = guarded([&] { a.setBasicUserPassword(curU, curP); }); if (t.any) { viol("c20:basic:sequence:set-throw", "setBasicUserPassword threw in sequence " + script); break; } have = true; }
+        else if (op == 'p') { curU = rnd(10, false); curP = rnd(12, true); std::string raw = "Basic " + ref_b64(curU + ":" + curP); Fence& f = fence_slot(); f.place(raw.data(), raw.size()); Thrown t = guarded([&] { a.parseRaw(f.ptr, f.len); }); if (t.any) { viol("c20:basic:sequence:parse-throw", "parseRaw threw in sequence " + script); break; } have = true; }
+        else if (op == 'c') { Http::Header::Authorization b(a); a = b; }
+        if (have) {
+            std::string u, p; Thrown t = guarded([&] { u = a.getBasicUser(); p = a.getBasicPassword(); });
+            if (t.any) { viol("c20:basic:sequence:get-throw", "accessors threw in sequence " + script + " at '" + std::string(1, op) + "'"); break; }
+            if (u != curU || p != curP) { viol(std::string("c20:basic:sequence:stale-after-") + (op == 's' ? "set" : op == 'p' ? "parse" : op == 'c' ? "copy" : "read"), "after sequence " + script + " the header holds '" + a.value() + "' but the accessors return user '" + u + "' password '" + p + "'"); break; }
+            if (a.value() != "Basic " + ref_b64(curU + ":" + curP)) { viol("c20:basic:sequence:value", "value() is not the encoding of the credentials set last in sequence " + script); break; }
+        }
+    }
+    g_distinct.add("credseq:" + script);
+    count("basic_credential_sequences");
+    end_case();
+}
 static void c20_invalid(const std::string& txt, const std::string& cls) {
     BEGIN("b64-invalid", cls, txt);
     Thrown t;
@@ -193,6 +224,9 @@ static void run_c20(long cases) {
         std::string cls = std::string(u.empty() ? "emptyuser" : "user") + (p.empty() ? "-emptypass" : p.find(':') != std::string::npos ? "-colonpass" : "-pass");
         c20_credentials(u, p, cls);
     }
+    for (long i = 0; i < cases / 12; i++) c20_credential_sequence(r);
+    // padding-only and padding-heavy texts of every length
+    if (first) for (int len = 1; len <= 72; len++) { c20_invalid(std::string((size_t)len, '='), "only-padding"); c20_invalid("A" + std::string((size_t)len, '='), "padding-after-one"); c20_invalid(std::string((size_t)len, '=') + "QQ==", "padding-first"); }
     static const char* B64ISH = "ABCDwxyz0189+/=-_ \n.";
     for (long i = 0; i < cases / 3; i++) {
         std::string s;
@@ -250,6 +284,24 @@ static void c19_expect_reject(const std::string& text, const std::string& cls, b
     else if (t.type != "invalid_argument") viol("c19:reject:" + cls + ":" + t.type, "'" + text + "' rejected with " + t.type + " (" + t.what + ") instead of invalid_argument");
     g_distinct.add("rej:" + cls + ":" + std::to_string(fnv(text) % 4096));
     count("addr_reject");
+    end_case();
+}
+// Address(host, Port): the host text goes through the same literal rules; a host that carries a port of its own, or is malformed, is
+// not a host literal
+static void c19_hostport_ctor(const std::string& host, int port, const std::string& cls, bool wantOk, const std::string& wantHost = "", int wantFamily = 0) {
+    BEGIN(wantOk ? "hostport-accept" : "hostport-reject", cls, host + " + Port(" + std::to_string(port) + ")");
+    std::string gotHost; int gotPort = -1, fam = -1;
+    Thrown t = guarded([&] { Address a(host, Port((uint16_t)port)); gotHost = a.host(); gotPort = (uint16_t)a.port(); fam = a.family(); });
+    if (wantOk) {
+        if (t.any) viol("c19:accept:hostport-ctor:" + cls + ":throw", "Address(\"" + host + "\", Port(" + std::to_string(port) + ")) rejected: " + t.what);
+        else if (gotHost != wantHost || gotPort != port || fam != wantFamily) viol("c19:accept:hostport-ctor:" + cls + ":value", "Address(\"" + host + "\", Port(" + std::to_string(port) + ")) = " + gotHost + " port " + std::to_string(gotPort));
+        count("hostport_accept");
+    } else {
+        if (!t.any) viol("c19:reject:hostport-ctor:" + cls + ":accepted", "Address(\"" + host + "\", Port(" + std::to_string(port) + ")) accepted as " + gotHost + " port " + std::to_string(gotPort));
+        else if (t.type != "invalid_argument") viol("c19:reject:hostport-ctor:" + cls + ":" + t.type, "Address(\"" + host + "\", Port) rejected with " + t.type + " instead of invalid_argument");
+        count("hostport_reject");
+    }
+    g_distinct.add("hp:" + cls + ":" + std::to_string(fnv(host) % 512));
     end_case();
 }
 static void c19_observe(const std::string& text, const std::string& cls) {
@@ -361,6 +413,23 @@ static void run_c19(long cases) {
             }
             if (r.chance(1, 2)) t += ":" + std::to_string(r.range(1, 65535));
             c19_expect_reject(t, cls);
+        } else if (kind == 8 && r.chance(1, 2)) {  // the two-argument constructor
+            int p = r.chance(1, 3) ? r.pick(std::vector<int>{0, 1, 80, 65535}) : r.range(0, 65535);
+            int a = r.range(0, 255), b = r.range(0, 255), c = r.range(0, 255), d = r.chance(1, 6) ? 255 : r.range(0, 255);
+            if (r.chance(1, 10)) a = b = c = d = 255;
+            std::string q4 = std::to_string(a) + "." + std::to_string(b) + "." + std::to_string(c) + "." + std::to_string(d);
+            unsigned char v6[16]; for (auto& x : v6) x = (unsigned char)r.below(256); if (r.chance(1, 3)) { memset(v6, 0, 16); v6[15] = (unsigned char)r.below(3); }
+            std::string c6 = v6text(v6);
+            int w = r.range(0, 8);
+            if (w == 0) c19_hostport_ctor(q4, p, "v4", true, q4, AF_INET);
+            else if (w == 1) c19_hostport_ctor("[" + c6 + "]", p, "v6", true, c6, AF_INET6);
+            else if (w == 2) { bool star = r.chance(1, 2); c19_hostport_ctor(star ? "*" : "localhost", p, "alias", true, star ? "0.0.0.0" : "127.0.0.1", AF_INET); }
+            else if (w == 3) c19_hostport_ctor(q4 + ":" + std::to_string(r.range(0, 65535)), p, "v4-host-carries-a-port", false);
+            else if (w == 4) c19_hostport_ctor("[" + c6 + "]:" + std::to_string(r.range(0, 65535)), p, "v6-host-carries-a-port", false);
+            else if (w == 5) c19_hostport_ctor(std::string(r.chance(1, 2) ? "*" : "localhost") + ":" + std::to_string(r.range(0, 65535)), p, "alias-host-carries-a-port", false);
+            else if (w == 6) c19_hostport_ctor(q4 + ":", p, "host-ends-in-colon", false);
+            else if (w == 7) c19_hostport_ctor(std::to_string(a) + "." + std::to_string(b) + "." + std::to_string(c) + "." + std::to_string(r.range(256, 999)), p, "v4-octet-range", false);
+            else c19_hostport_ctor(r.chance(1, 2) ? "[::1" : "[1::2::3]", p, "v6-malformed", false);
         } else if (kind == 8) {  // empty / colon-only
             int w = r.range(0, 2);
             if (w == 0) c19_expect_reject(":", "port-empty");
@@ -531,7 +600,11 @@ static void c18_invalid(Rng& r) {
     case 5: text = good + ";"; cls = "semicolon-then-end"; break;
     case 6: text = good + "; q"; cls = "q-then-end"; break;
     case 7: text = good + "; q="; cls = "q-equals-then-end"; break;
-    case 8: text = good + "; q=" + rnd_token(r, 1, 3, "abcxyz"); cls = "q-not-number"; break;
+    case 8: if (r.chance(1, 2)) { text = good + "; q=" + rnd_token(r, 1, 3, "abcxyz"); cls = "q-not-number"; }
+            else {   // words and magnitudes that a C number reader accepts but that are no quality value (0..1)
+                static const char* W[] = {"nan", "NaN", "NAN", "-nan", "+nan", "nan(1)", "nan()", "inf", "-inf", "INF", "Infinity", "infinity", "1e999", "-1e999", "-0.5", "-1", "1e1", "2e0", "1.0001", "-1e-1"};
+                text = good + "; q=" + r.pick(W); if (r.chance(1, 3)) text += "; charset=utf-8"; cls = "q-not-a-quality-value"; }
+            break;
     case 9: text = good + "; charset"; cls = "param-without-value"; break;
     case 10: text = good + "; charset="; cls = "param-equals-then-end"; break;
     default: text = good + "; q=" + std::to_string(r.range(2, 9)) + (r.chance(1, 2) ? ".5" : ""); cls = "q-out-of-range"; break;
